@@ -854,9 +854,15 @@ def _gen_act(rng, world, fi, fam, inplace_bias):
         name = rng.choice(INPLACE)
     else:
         name = rng.choice(OTHER_MUT)
+    if world.prop == "C11" and rng.random() < 0.08:
+        # an unclosed note (lone note-on): later pairing-based operations impute its note-off
+        d = seqops._duration(s)
+        return {"op": "act", "fam": fi, "target": target, "name": "add_absolute_message",
+                "args": {"msg": {"t": "note_on", "ch": 0, "time": rng.randrange(0, d + 1), "note": rng.randrange(40, 90),
+                                 "velocity": rng.randrange(1, 128)}}}
     args = OPS[name][1](rng, s)
     if name == "scale":
-        args = {"factor": rng.choice([2, 2, 3, 4]), "q": rng.random() < 0.3}
+        args = {"factor": rng.choice([1, 2, 2, 3, 4]), "q": rng.random() < 0.3}
     if name == "transpose":
         args = {"by": rng.choice([1, 2, 3, 5, 7, -1, -2, -5, -7, 11, 4, -4])}
     return {"op": "act", "fam": fi, "target": target, "name": name, "args": args}
